@@ -99,6 +99,11 @@ func (c *ShipConnection) handleState(timeout bool, message []byte) {
 		// triggered without a message received
 		c.handshakeInit_cmiStateInitStart()
 
+		// a message that came in before or while the handshake got started must not get lost
+		if len(message) > 0 && c.getState() != model.CmiStateInitStart {
+			c.handleState(timeout, message)
+		}
+
 	case model.CmiStateClientWait:
 		if timeout {
 			c.endHandshakeWithError(errors.New("ship client handshake timeout"))
